@@ -59,7 +59,7 @@ def run(ctx, extra_cases=()):
     rng = random.Random(ctx.seed)
 
     exprs, infos = [D.case_ascii_classes()], [dict(kind="ascii-classes")]
-    n = ctx.n(1500, 24000)
+    n = ctx.n(1500, 40000)
     for i in range(n):
         k = i % 10
         if k < 6:
@@ -156,7 +156,7 @@ def run(ctx, extra_cases=()):
 
     # ---- monitor-only stream: the real `random` module, a set-based collision oracle ---------
     mfails, mcount = [], 0
-    for j in range(ctx.n(4000, 80000)):
+    for j in range(ctx.n(4000, 120000)):
         name, kind = D.gen_name(rng)
         force = rng.random() < 0.1
         low, al = D.analyse(name)
